@@ -229,12 +229,12 @@ pub fn report_failure(rep_out: &mut Report, t: &Ty, v: &Val, rep: Rep, rt: &Rt, 
             "roundtrip|{}|rep={}|shape={}|val={}",
             fam,
             scope,
-            sig_class(&mt),
+            root_class(&mt),
             value_class(&mt, &mv)
         )
     };
     let what = format!(
-        "{} {}: {} ; type {} value {} bytes {}",
+        "{} {}: {} ; min shape {} ; type {} value {} bytes {}",
         rep.name(),
         fin.key,
         fin.detail,
